@@ -232,15 +232,18 @@ gen_harness!(gen_kp_kp_ep_black_sound, gen_kp_kp_ep_black_complete, 12, false, &
 // symbolic squares (attacks on e/f/g, e/d/c, b1/b8; blockers on the path)
 macro_rules! castle_harness {
     ($name:ident, $mode:expr, $wtm:expr) => {
+        castle_harness!($name, $mode, $wtm, 4);
+    };
+    ($name:ident, $mode:expr, $wtm:expr, $opp:expr) => {
         proof_geo! {
             #[cfg_attr(kani, kani::stub(std::vec::Vec::push, crate::stubs::push_noalloc))]
             fn $name() {
-                let p = castle_family($wtm, &[4], concat!("c01 ", stringify!($name)));
+                let p = castle_family($wtm, &[$opp], concat!("c01 ", stringify!($name)));
                 let (p, _len) = generator_on::<40, $mode>(p, concat!("c01 ", stringify!($name)));
                 let (qs, ks, home, b_sq): (usize, usize, u8, u8) = if $wtm { (1, 0, 4, 1) } else { (3, 2, 60, 57) };
                 kani::cover!(p.rights[qs] && gen_pseudo(&p, Mv { from: home, to: home - 2, promo: 0 }) && attacked_ref(&p.bb, p.them(), b_sq), "queen-side castling allowed while the b-file square is attacked");
                 kani::cover!(p.rights[ks] && !gen_pseudo(&p, Mv { from: home, to: home + 2, promo: 0 }) && p.occ() & (bit(home + 1) | bit(home + 2)) == 0, "king-side castling refused through an attacked square");
-                kani::cover!(p.rights[qs] && p.occ() & bit(b_sq) != 0, "queen-side path blocked on the b-file only");
+                kani::cover!(p.rights[qs] && p.occ_c(p.them()) & bit(b_sq) != 0, "queen-side path blocked by an opposing man on the b-file only");
             }
         }
     };
@@ -250,6 +253,11 @@ castle_harness!(gen_castle_white_sound, 0, true);
 castle_harness!(gen_castle_white_complete, 1, true);
 castle_harness!(gen_castle_black_sound, 0, false);
 castle_harness!(gen_castle_black_complete, 1, false);
+// ... and with an opposing knight instead of the rook (it can sit on the path without attacking it)
+castle_harness!(gen_castle_n_white_sound, 0, true, 2);
+castle_harness!(gen_castle_n_white_complete, 1, true, 2);
+castle_harness!(gen_castle_n_black_sound, 0, false, 2);
+castle_harness!(gen_castle_n_black_complete, 1, false, 2);
 
 proof_geo! {
     #[cfg_attr(kani, kani::stub(std::vec::Vec::push, crate::stubs::push_noalloc))]
